@@ -76,6 +76,9 @@ def setup(w, rg):
     for i in range(cfg["nres"]):
         init = None if rg.random() < cfg["p_missing"] else gen_value(rg, w.fresh, 3, cfg["kinds"][i], 3)
         yield {"t": "new_res", "family": cfg["family"], "kind": cfg["kinds"][i], "init": init}
+        if rg.random() < 0.2:
+            # a left-over temp file of an earlier crashed save sits next to the (possibly missing) file
+            yield {"t": "leftover", "rid": i, "scheme": rg.randrange(4), "content": gen_value(rg, w.fresh, 2, cfg["kinds"][i], 3), "partial": rg.random() < 0.3}
     for i in range(cfg["nres"]):
         for _ in range(cfg["nobj"]):
             yield {"t": "new_obj", "rid": i, "wc": cfg["wc"]}
